@@ -158,7 +158,17 @@ func (x *Exec) atReturn(fr *Frame, st *State, rv []Val) {
 			continue
 		}
 		t := ev.evalBool(en.Text)
-		x.obligeX(st, "ensures", en.Name(), props, t, en.Text, "", en.MustFail, false)
+		if parts := topConjuncts(t); len(parts) > 1 && !en.MustFail {
+			for i, pt := range parts {
+				x.obligeX(st, "ensures", fmt.Sprintf("%s.%d", en.Name(), i+1), props, pt, fmt.Sprintf("%s   [conjunct %d]", en.Text, i+1), "", false, false)
+			}
+		} else {
+			x.obligeX(st, "ensures", en.Name(), props, t, en.Text, "", en.MustFail, false)
+		}
+		if en.Label != "" && strings.HasPrefix(en.Label, "lemma") {
+			// a proved lemma may be used by the clauses after it
+			st.pc = append(st.pc, t)
+		}
 	}
 	if c.ModSet {
 		x.frameCheckAgainst(st, x.entry, c.Modifies, ev.withState(x.entry), "frame", c.Props)
@@ -263,4 +273,44 @@ func (x *Exec) globalStore(fr *Frame, st *State, ins *ssa.Store, p Ptr) {
 		return // the frame check reports it
 	}
 	x.note("store to package-level variable " + p.Prefix + " (global invariants are assumed preserved)")
+}
+
+// topConjuncts splits "(and a b c)" into its arguments (nested ands flattened one level).
+func topConjuncts(t Term) []Term {
+	if !strings.HasPrefix(t.S, "(and ") {
+		return []Term{t}
+	}
+	body := t.S[5 : len(t.S)-1]
+	var out []Term
+	d := 0
+	inq := false
+	start := 0
+	flush := func(end int) {
+		p := strings.TrimSpace(body[start:end])
+		if p != "" {
+			out = append(out, topConjuncts(Term{p, sBool})...)
+		}
+	}
+	for i := 0; i < len(body); i++ {
+		c := body[i]
+		if c == '|' {
+			inq = !inq
+		}
+		if inq {
+			continue
+		}
+		switch c {
+		case '(':
+			d++
+		case ')':
+			d--
+		case ' ':
+			if d == 0 {
+				flush(i)
+				start = i + 1
+			}
+		}
+	}
+	flush(len(body))
+	return out
 }
